@@ -1,6 +1,7 @@
 package prio
 
 import (
+	"fmt"
 	"os"
 	"strings"
 	"testing"
@@ -193,6 +194,25 @@ func TestC02(t *testing.T) {
 				}
 			}
 			return len(ps) >= 2 && (hasUnbufOrShort(s) || diff) && tr.Terminated
+		},
+	})
+}
+
+// TestC02Elem : exactly-once delivery under the right priority for instantiations with a zero-size
+// and a wide item type.
+func TestC02Elem(t *testing.T) {
+	evid.Run(t, evid.Prop[ElemCase]{
+		ID:   "C02",
+		Rule: "v1 and v2, plain and simplified, instantiated with struct{} items (only counts per priority observable) and with a 176-byte struct, 1..3 priorities, H in {6,7,12}, Fair/Rate, input capacity 0..32, 0..20 items per input, inputs closed after the writes, every item released at once; oracle: per-priority counts (wide: identity and tag) equal what was written, Err() yields nil, the run completes; non-trivial = at least 2 priorities with items; distinct = distinct case JSON",
+		Gen:  GenElem,
+		Run: func(c ElemCase) evid.Outcome {
+			k := 0
+			for _, x := range c.Counts {
+				if x > 0 {
+					k++
+				}
+			}
+			return evid.Outcome{Err: CheckElem(t, c), NonTrivial: k >= 2, Classes: []string{fmt.Sprintf("v%d simple=%v", c.Ver, c.Simple), "elem:" + c.Elem}, Summary: "see script"}
 		},
 	})
 }
